@@ -352,7 +352,7 @@ class C04(Engine):
 		'sources do not change inside a session (edits between processes are C05/C06)']
 
 	def prepare(self, ev: Evidence, tier: str) -> None:
-		n = 2 if tier == 'quick' else 10
+		n = 3 if tier == 'quick' else 12
 		res = exec_spot_checks(n)
 		ev.coverage['exec_fresh_spot_checks'] = res
 		if res['mismatches']:
@@ -457,7 +457,7 @@ def exec_spot_checks(n: int, pool: dict[str, Any] | None = None) -> dict[str, An
 	mismatches: list[dict[str, Any]] = []
 	seeds_used: list[str] = []
 	for j in range(n):
-		this_pool = pool or (pools.fixed_pool(j) if j < 2 else pools.gen_pool(rng, allow_invalid=False))
+		this_pool = pool or (pools.fixed_pool([0, 1, 3][j]) if j < 3 else pools.gen_pool(rng, allow_invalid=False))
 		proj = Project(this_pool, tag='spot')
 		try:
 			spec = {'root': proj.sc.root, 'modules': this_pool['modules'], 'cache_enabled': False}
